@@ -37,6 +37,7 @@
 #include <kernel/lafem/dense_vector.hpp>
 #include <kernel/lafem/sparse_matrix_csr.hpp>
 #include <kernel/lafem/transfer.hpp>
+#include <algorithm>
 #include <cmath>
 #include <memory>
 
@@ -160,6 +161,85 @@ namespace
       return unit_cube<MeshS>(0);
     }
   };
+
+  // ---- two-cell meshes in which each cell's local vertex numbering runs through the full symmetry group of the reference cell
+  template<typename Shape_> struct CellGroup;
+  template<int d_> struct CellGroup<Shape::Hypercube<d_>>
+  {
+    static constexpr int nv = 1 << d_;
+    /// all signed axis permutations (|G| = 2^d d!: 2, 8, 48), as permutations of the local vertex indices
+    static std::vector<std::vector<int>> elements()
+    {
+      std::vector<std::vector<int>> G;
+      std::vector<int> ax((size_t(d_))); for(int i = 0; i < d_; ++i) ax[size_t(i)] = i;
+      do {
+        for(int sg = 0; sg < (1 << d_); ++sg)
+        {
+          std::vector<int> p((size_t(nv)));
+          for(int i = 0; i < nv; ++i)
+          {
+            int j = 0;
+            for(int k = 0; k < d_; ++k) { int bit = (i >> ax[size_t(k)]) & 1; if((sg >> k) & 1) bit ^= 1; j |= bit << k; }
+            p[size_t(i)] = j;
+          }
+          G.push_back(p);
+        }
+      } while(std::next_permutation(ax.begin(), ax.end()));
+      return G;
+    }
+    /// two unit cubes [0,1]^d and [1,2]x[0,1]^(d-1)
+    static void geometry(std::vector<std::vector<double>>& vtx, std::vector<int>& a, std::vector<int>& b)
+    {
+      int npl = 1 << (d_ - 1);
+      for(int r = 0; r < npl; ++r) for(int x = 0; x < 3; ++x)
+      {
+        std::vector<double> c((size_t(d_)), 0.0); c[0] = double(x);
+        for(int k = 1; k < d_; ++k) c[size_t(k)] = double((r >> (k - 1)) & 1);
+        vtx.push_back(c);
+      }
+      for(int i = 0; i < nv; ++i) { int x = i & 1, r = i >> 1; a.push_back(r * 3 + x); b.push_back(r * 3 + x + 1); }
+    }
+  };
+  template<int d_> struct CellGroup<Shape::Simplex<d_>>
+  {
+    static constexpr int nv = d_ + 1;
+    static std::vector<std::vector<int>> elements()
+    {
+      std::vector<std::vector<int>> G;
+      std::vector<int> p((size_t(nv))); for(int i = 0; i < nv; ++i) p[size_t(i)] = i;
+      do { G.push_back(p); } while(std::next_permutation(p.begin(), p.end()));
+      return G;
+    }
+    /// the reference simplex and its mirror image across the facet opposite to vertex 0
+    static void geometry(std::vector<std::vector<double>>& vtx, std::vector<int>& a, std::vector<int>& b)
+    {
+      vtx.push_back(std::vector<double>((size_t(d_)), 0.0));
+      for(int k = 0; k < d_; ++k) { std::vector<double> c((size_t(d_)), 0.0); c[size_t(k)] = 1.0; vtx.push_back(c); }
+      vtx.push_back(std::vector<double>((size_t(d_)), d_ == 2 ? 1.0 : 0.75));
+      for(int i = 0; i < nv; ++i) a.push_back(i);
+      b.push_back(d_ + 1); for(int i = 1; i < nv; ++i) b.push_back(i);
+      if(d_ >= 2) std::swap(b[1], b[2]);
+    }
+  };
+
+  template<typename Mesh_> std::unique_ptr<Mesh_> pair_mesh(int g1, int g2)
+  {
+    typedef typename Mesh_::ShapeType S;
+    typedef CellGroup<S> CG;
+    static const std::vector<std::vector<int>> G = CG::elements();
+    std::vector<std::vector<double>> vtx; std::vector<int> a, b;
+    CG::geometry(vtx, a, b);
+    Index ne[4] = {0, 0, 0, 0};
+    ne[0] = Index(vtx.size()); ne[S::dimension] = (S::dimension == 1) ? 2 : 2;
+    if(S::dimension == 1) { ne[0] = Index(vtx.size()); ne[1] = 2; }
+    std::unique_ptr<Mesh_> m(new Mesh_(ne));
+    for(Index i = 0; i < Index(vtx.size()); ++i) for(int k = 0; k < S::dimension; ++k) m->get_vertex_set()[i][k] = vtx[size_t(i)][size_t(k)];
+    auto& idx = m->template get_index_set<S::dimension, 0>();
+    for(int i = 0; i < CG::nv; ++i) { idx[0][i] = Index(a[size_t(G[size_t(g1)][size_t(i)])]); idx[1][i] = Index(b[size_t(G[size_t(g2)][size_t(i)])]); }
+    if constexpr (S::dimension > 1) m->deduct_topology_from_top(); else m->fill_neighbors();
+    return m;
+  }
+  template<typename Mesh_> int pair_group_size() { static const int n = int(CellGroup<typename Mesh_::ShapeType>::elements().size()); return n; }
 
   /// deterministic non-affine distortion of the vertex coordinates (keeps all cells valid for coordinates in [0,4]^d)
   template<typename Mesh_> void distort(Mesh_& mesh)
@@ -327,7 +407,19 @@ namespace
       }
       c.check(worst <= 2e-11, "prolongation not exact on the coarse space; " + key, [&]{ char b[200]; snprintf(b, sizeof b, "max |(P e_j)(x) - phi_j(x)| = %.3e (fine cell %u, coarse dof %u), cubature %s", worst, unsigned(worst_cell), unsigned(worst_col), cub_a.c_str()); return std::string(b); });
       c.check(worst_b <= 2e-11, "prolongation not exact on the coarse space (second cubature rule); " + key, [&]{ char b[200]; snprintf(b, sizeof b, "max error %.3e, cubature %s", worst_b, cub_b.c_str()); return std::string(b); });
-      c.check(worst_s <= 2e-11, "prolongation not exact on the coarse space (asm_transfer step sequence with shrink); " + key, [&]{ char b[200]; snprintf(b, sizeof b, "max error %.3e", worst_s); return std::string(b); });
+      {
+        // shrink(1e-3*max) is a documented lossy option: it may drop genuine small entries (tensor-product cubic elements in 3D
+        // have entries (1/16)^3); exactness is demanded only where it dropped nothing but assembly noise
+        double dropped = 0.0;
+        for(size_t k = 0; k < P.v.size(); ++k) if(Ps.v[k] == 0.0) dropped = std::max(dropped, std::fabs(P.v[k]));
+        if(dropped <= 1e-12)
+          c.check(worst_s <= 2e-11, "prolongation not exact on the coarse space (asm_transfer step sequence with shrink); " + key, [&]{ char b[200]; snprintf(b, sizeof b, "max error %.3e", worst_s); return std::string(b); });
+        else
+        {
+          c.excluded("shrink(1e-3*max) drops genuine prolongation entries (documented lossy option)");
+          c.check(worst_s <= 64.0 * dropped, "shrunk prolongation error exceeds what the dropped entries explain; " + key, [&]{ char b[200]; snprintf(b, sizeof b, "max error %.3e, largest dropped entry %.3e", worst_s, dropped); return std::string(b); });
+        }
+      }
       c.count("lattice_points", npts);
       c.count("fine_cells", ncell_f);
 
@@ -394,29 +486,49 @@ namespace
   void enumerate(verif::Ctx& c, const ElemDesc& E, bool hypercube)
   {
     typedef Sources<Mesh_> Src;
-    for(int src = 0; src < Src::count(); ++src)
+    const int ng = pair_group_size<Mesh_>();
+    const int npairs = (Mesh_::shape_dim >= 2) ? 2 * ng - 1 : ng * ng; // (id,g), (g,id); 1D: all
+    for(int src = 0; src < Src::count() + npairs; ++src)
     for(int dist = 0; dist < 2; ++dist)
     for(int ref = 0; ref < 2; ++ref)
     for(int ps = 0; ps < 8; ++ps)
     for(int pw = 0; pw < 3; ++pw) // which mesh is permuted: 0 coarse, 1 fine, 2 both
     {
       if(ps == 0 && pw > 0) continue;
+      const bool is_pair = src >= Src::count();
+      int g1 = 0, g2 = 0;
+      if(is_pair)
+      {
+        const int q = src - Src::count();
+        if(Mesh_::shape_dim >= 2) { if(q < ng) g2 = q; else g1 = q - ng + 1; } else { g1 = q / ng; g2 = q % ng; }
+      }
+      const std::string sname = is_pair ? ("pair(g" + std::to_string(g1) + ",g" + std::to_string(g2) + ")") : std::string(Src::name(src));
       // reduced products
-      const bool multi = (ref > 0) || std::string(Src::name(src)).find("orient") == std::string::npos;
+      if(is_pair)
+      {
+        // orientation pairs: plain in the quick tier; refined / distorted / randomly permuted in the thorough tier
+        const bool plain = (dist == 0 && ref == 0 && ps == 0);
+        const bool extra = (dist + ref <= 1) && (ps == 0 || (ps == 7 && pw == 2 && dist == 0));
+        if(!(plain || (c.thorough && extra))) continue;
+        if(Mesh_::shape_dim == 3 && E.degree >= 3 && !c.thorough && (g1 + g2) % 4 != 0) continue;
+      }
+      const bool multi = is_pair || (ref > 0) || sname.find("orient") == std::string::npos;
       if(ps > 0 && !multi) continue;                         // permuting a one-cell coarse mesh: only through the fine mesh ...
-      if(Mesh_::shape_dim == 3 && ref > 0 && (E.degree >= 2 || src >= 3) && !c.thorough) continue; // large 3D pairs only in the thorough tier
-      if(Mesh_::shape_dim == 3 && ps > 0 && !(ps == 1 || ps == 2 || ps == 7) && !c.thorough) continue;
-      if(E.degree >= 3 && ps > 0 && !(ps == 2 || ps == 7) && !c.thorough) continue;
-      if(dist == 1 && ps > 0 && !(ps == 7 && pw == 2)) continue;
+      if(!is_pair)
+      {
+        if(Mesh_::shape_dim == 3 && E.degree >= 3 && (ref > 0 || ps > 0) && !(c.thorough && src < 3 && ps == 0)) continue; // cubic 3D elements: small pairs
+        if(Mesh_::shape_dim == 3 && ref > 0 && src == 3 && E.degree >= 2 && !c.thorough) continue; // tetris/big meshes refined twice: thorough only
+        if(dist == 1 && ps > 0 && !(ps == 7 && pw == 2)) continue;
+      }
       if(!c.want()) continue;
-      const std::string key = std::string(E.name) + " " + Src::name(src) + (dist ? " distorted" : "") + " ref" + std::to_string(ref) + " perm=" + PERM_NAMES[ps] + (ps ? (pw == 0 ? "(coarse)" : pw == 1 ? "(fine)" : "(both)") : "");
+      const std::string key = std::string(E.name) + " " + sname + (dist ? " distorted" : "") + " ref" + std::to_string(ref) + " perm=" + PERM_NAMES[ps] + (ps ? (pw == 0 ? "(coarse)" : pw == 1 ? "(fine)" : "(both)") : "");
       c.desc([&]{ return key; });
       if(dist == 1 && hypercube && E.needs_parallelogram)
       {
         c.excluded("parametric discontinuous P_k on non-parallelogram hypercube cells is not nested");
         continue;
       }
-      std::unique_ptr<Mesh_> m0 = Src::make(src);
+      std::unique_ptr<Mesh_> m0 = is_pair ? pair_mesh<Mesh_>(g1, g2) : Src::make(src);
       if(dist) distort(*m0);
       std::unique_ptr<Mesh_> mc;
       if(ref == 0) mc = std::move(m0);
@@ -483,9 +595,14 @@ int main(int argc, char** argv)
     enumerate<MeshT, ElD1>(c, D1, false);
     enumerate<MeshH, ElL1>(c, L1, true);
     enumerate<MeshH, ElL2>(c, L2, true);
+    enumerate<MeshH, ElL3>(c, L3, true);
     enumerate<MeshH, ElD0>(c, D0, true);
+    enumerate<MeshH, ElD1>(c, D1, true);
+    enumerate<MeshH, ElB2>(c, B2, true);
     enumerate<MeshS, ElL1>(c, L1, false);
     enumerate<MeshS, ElL2>(c, L2, false);
+    enumerate<MeshS, ElL3>(c, L3, false);
     enumerate<MeshS, ElD0>(c, D0, false);
+    enumerate<MeshS, ElD1>(c, D1, false);
   });
 }
